@@ -108,7 +108,7 @@ def logql_keywords():
 class SelP(_DockProp):
     id = "C20"
     name = "selectability"
-    rule = ("part `selectability`: for a Docker label key k (every word of the lexer's keyword table of the current tree, every string of length <= 2 over the 13-symbol alphabet, "
+    rule = ("part `selectability`: for a Docker label key k (every word of the lexer's keyword table of the current tree, such words in another letter case, every string of length <= 2 over the 13-symbol alphabet, "
             "random longer keys, keys colliding after sanitisation, a key shadowing a built-in label) an inventory holds a container with k=v, one with k=other, one without k "
             "and sometimes one with two keys that sanitise to the same name; the query text {sanitised(k)=\"v\"} (name computed by the generator's own KeyToLabel) goes through "
             "logql.Parse, Engine.Eval and dockerlog.Querier over the fake daemon; demanded: no error, exactly the containers whose label view has sanitised(k)=v are asked for "
@@ -120,6 +120,8 @@ class SelP(_DockProp):
         ualpha = [a.decode() for a in ALPHA if a not in (b"\xff", b"\xc3")]        # Docker label keys are JSON strings: valid UTF-8 only
         short = ["".join(t) for n in (1, 2) for t in itertools.product(ualpha, repeat=n)]
         keys = list(kws)
+        # ... and the same words in another letter case: they are ordinary label names (the lexer's table is case-sensitive)
+        keys += sorted({rng.choice([w.upper(), w.capitalize(), w.title()]) for w in rng.sample(kws, min(len(kws), {"quick": 12, "thorough": len(kws), "search": 20}[tier]))} - set(kws))
         nshort = {"quick": 40, "thorough": len(short), "search": 60}[tier]
         keys += rng.sample(short, min(nshort, len(short)))
         for _ in range({"quick": 40, "thorough": 400, "search": 80}[tier]):
